@@ -1,10 +1,12 @@
 // Unit `driver_poll`: the poll-level forwarding impls of the stream wrappers
 // (wtransport/src/driver/streams/mod.rs: QuicSendStream as wtransport_proto::bytes::AsyncWrite and as
-// tokio::io::AsyncWrite; wtransport/src/stream.rs: SendStream, BiStream as tokio::io::AsyncWrite).
+// tokio::io::AsyncWrite, QuicRecvStream as wtransport_proto::bytes::AsyncRead; wtransport/src/stream.rs:
+// SendStream, BiStream as tokio::io::AsyncWrite).
 //
 // C16: the byte count reported to the sans-IO writers is exactly what quinn accepted of exactly the
 // bytes handed in (never `buf.len()` by fiat); C06: poll_shutdown reaches quinn's poll_shutdown (the
-// FIN), poll_flush reaches poll_flush - no operation is swapped for another on the way down.
+// FIN), poll_flush reaches poll_flush - no operation is swapped for another on the way down; C05: the
+// count the sans-IO readers get per poll is the number of bytes quinn filled in (an error stays an error).
 //
 // Bodies extracted from /repo. R14 (this unit): `mut self: Pin<&mut Self>` is read as `&mut self`
 // and `Pin::new(&mut x)` as `&mut x` (all wrapper types are Unpin tuple structs: Pin is a no-op
@@ -50,7 +52,6 @@ impl QuinnSendStream {
 }
 
 struct QuicSendStream(QuinnSendStream);
-struct QuicRecvStream { x: u8 }
 struct SendStream(QuicSendStream);
 struct RecvStream(QuicRecvStream);
 struct BiStream((SendStream, RecvStream));
@@ -61,7 +62,7 @@ impl QuicSendStream {
 //@ subst `mut self: Pin<&mut Self>` => `&mut self`
 //@ subst `Context<'_>` => `Context`
 //@ resub `Poll<(std::io::Result<usize>|Result<usize, std::io::Error>)>` => `Poll<Result<usize, IoError>>`
-//@ resub `tokio::io::AsyncWrite::(poll_\w+)\(Pin::new\(&mut self\.0\)` => `QuinnSendStream::\1(&mut self.0`
+//@ resub `tokio::io::AsyncWrite::(poll_\w+)\(\s*Pin::new\(([^()]*)\)` => `QuinnSendStream::\1(\2`
 //@ subst `fn poll_write(` => `fn proto_poll_write(`
 //@ ensures
 //@ | r == write_outcome(old(self).0.id, old(self).0.ops@.len(), buf@),
@@ -71,7 +72,7 @@ impl QuicSendStream {
 //@ subst `mut self: Pin<&mut Self>` => `&mut self`
 //@ subst `Context<'_>` => `Context`
 //@ resub `Poll<(std::io::Result<usize>|Result<usize, std::io::Error>)>` => `Poll<Result<usize, IoError>>`
-//@ resub `tokio::io::AsyncWrite::(poll_\w+)\(Pin::new\(&mut self\.0\)` => `QuinnSendStream::\1(&mut self.0`
+//@ resub `tokio::io::AsyncWrite::(poll_\w+)\(\s*Pin::new\(([^()]*)\)` => `QuinnSendStream::\1(\2`
 //@ ensures
 //@ | r == write_outcome(old(self).0.id, old(self).0.ops@.len(), buf@),
 //@ | final(self).0.id == old(self).0.id, final(self).0.ops@ == old(self).0.ops@.push(Op::Write(buf@)),
@@ -80,7 +81,7 @@ impl QuicSendStream {
 //@ subst `mut self: Pin<&mut Self>` => `&mut self`
 //@ subst `Context<'_>` => `Context`
 //@ resub `Poll<(std::io::Result<\(\)>|Result<\(\), std::io::Error>)>` => `Poll<Result<(), IoError>>`
-//@ resub `tokio::io::AsyncWrite::(poll_\w+)\(Pin::new\(&mut self\.0\)` => `QuinnSendStream::\1(&mut self.0`
+//@ resub `tokio::io::AsyncWrite::(poll_\w+)\(\s*Pin::new\(([^()]*)\)` => `QuinnSendStream::\1(\2`
 //@ ensures
 //@ | r == flush_outcome(old(self).0.id, old(self).0.ops@.len()),
 //@ | final(self).0.id == old(self).0.id, final(self).0.ops@ == old(self).0.ops@.push(Op::Flush),
@@ -89,7 +90,7 @@ impl QuicSendStream {
 //@ subst `mut self: Pin<&mut Self>` => `&mut self`
 //@ subst `Context<'_>` => `Context`
 //@ resub `Poll<(std::io::Result<\(\)>|Result<\(\), std::io::Error>)>` => `Poll<Result<(), IoError>>`
-//@ resub `tokio::io::AsyncWrite::(poll_\w+)\(Pin::new\(&mut self\.0\)` => `QuinnSendStream::\1(&mut self.0`
+//@ resub `tokio::io::AsyncWrite::(poll_\w+)\(\s*Pin::new\(([^()]*)\)` => `QuinnSendStream::\1(\2`
 //@ ensures
 //@ | r == shutdown_outcome(old(self).0.id, old(self).0.ops@.len()),
 //@ | final(self).0.id == old(self).0.id, final(self).0.ops@ == old(self).0.ops@.push(Op::Shutdown),
@@ -101,7 +102,7 @@ impl SendStream {
 //@ subst `mut self: Pin<&mut Self>` => `&mut self`
 //@ subst `Context<'_>` => `Context`
 //@ resub `Poll<(std::io::Result<usize>|Result<usize, std::io::Error>)>` => `Poll<Result<usize, IoError>>`
-//@ resub `tokio::io::AsyncWrite::(poll_\w+)\(Pin::new\(&mut self\.0\)` => `QuicSendStream::\1(&mut self.0`
+//@ resub `tokio::io::AsyncWrite::(poll_\w+)\(\s*Pin::new\(([^()]*)\)` => `QuicSendStream::\1(\2`
 //@ ensures
 //@ | r == write_outcome(old(self).0.0.id, old(self).0.0.ops@.len(), buf@),
 //@ | final(self).0.0.id == old(self).0.0.id, final(self).0.0.ops@ == old(self).0.0.ops@.push(Op::Write(buf@)),
@@ -110,7 +111,7 @@ impl SendStream {
 //@ subst `mut self: Pin<&mut Self>` => `&mut self`
 //@ subst `Context<'_>` => `Context`
 //@ resub `Poll<(std::io::Result<\(\)>|Result<\(\), std::io::Error>)>` => `Poll<Result<(), IoError>>`
-//@ resub `tokio::io::AsyncWrite::(poll_\w+)\(Pin::new\(&mut self\.0\)` => `QuicSendStream::\1(&mut self.0`
+//@ resub `tokio::io::AsyncWrite::(poll_\w+)\(\s*Pin::new\(([^()]*)\)` => `QuicSendStream::\1(\2`
 //@ ensures
 //@ | r == flush_outcome(old(self).0.0.id, old(self).0.0.ops@.len()),
 //@ | final(self).0.0.id == old(self).0.0.id, final(self).0.0.ops@ == old(self).0.0.ops@.push(Op::Flush),
@@ -119,7 +120,7 @@ impl SendStream {
 //@ subst `mut self: Pin<&mut Self>` => `&mut self`
 //@ subst `Context<'_>` => `Context`
 //@ resub `Poll<(std::io::Result<\(\)>|Result<\(\), std::io::Error>)>` => `Poll<Result<(), IoError>>`
-//@ resub `tokio::io::AsyncWrite::(poll_\w+)\(Pin::new\(&mut self\.0\)` => `QuicSendStream::\1(&mut self.0`
+//@ resub `tokio::io::AsyncWrite::(poll_\w+)\(\s*Pin::new\(([^()]*)\)` => `QuicSendStream::\1(\2`
 //@ ensures
 //@ | r == shutdown_outcome(old(self).0.0.id, old(self).0.0.ops@.len()),
 //@ | final(self).0.0.id == old(self).0.0.id, final(self).0.0.ops@ == old(self).0.0.ops@.push(Op::Shutdown),
@@ -131,7 +132,7 @@ impl BiStream {
 //@ subst `mut self: Pin<&mut Self>` => `&mut self`
 //@ subst `Context<'_>` => `Context`
 //@ resub `Poll<(std::io::Result<usize>|Result<usize, std::io::Error>)>` => `Poll<Result<usize, IoError>>`
-//@ resub `tokio::io::AsyncWrite::(poll_\w+)\(Pin::new\(&mut self\.0 \.0\)` => `SendStream::\1(&mut self.0 .0`
+//@ resub `tokio::io::AsyncWrite::(poll_\w+)\(\s*Pin::new\(([^()]*)\)` => `SendStream::\1(\2`
 //@ ensures
 //@ | r == write_outcome(old(self).0.0.0.0.id, old(self).0.0.0.0.ops@.len(), buf@),
 //@ | final(self).0.0.0.0.id == old(self).0.0.0.0.id, final(self).0.0.0.0.ops@ == old(self).0.0.0.0.ops@.push(Op::Write(buf@)),
@@ -140,7 +141,7 @@ impl BiStream {
 //@ subst `mut self: Pin<&mut Self>` => `&mut self`
 //@ subst `Context<'_>` => `Context`
 //@ resub `Poll<(std::io::Result<\(\)>|Result<\(\), std::io::Error>)>` => `Poll<Result<(), IoError>>`
-//@ resub `tokio::io::AsyncWrite::(poll_\w+)\(Pin::new\(&mut self\.0 \.0\)` => `SendStream::\1(&mut self.0 .0`
+//@ resub `tokio::io::AsyncWrite::(poll_\w+)\(\s*Pin::new\(([^()]*)\)` => `SendStream::\1(\2`
 //@ ensures
 //@ | r == flush_outcome(old(self).0.0.0.0.id, old(self).0.0.0.0.ops@.len()),
 //@ | final(self).0.0.0.0.id == old(self).0.0.0.0.id, final(self).0.0.0.0.ops@ == old(self).0.0.0.0.ops@.push(Op::Flush),
@@ -149,10 +150,53 @@ impl BiStream {
 //@ subst `mut self: Pin<&mut Self>` => `&mut self`
 //@ subst `Context<'_>` => `Context`
 //@ resub `Poll<(std::io::Result<\(\)>|Result<\(\), std::io::Error>)>` => `Poll<Result<(), IoError>>`
-//@ resub `tokio::io::AsyncWrite::(poll_\w+)\(Pin::new\(&mut self\.0 \.0\)` => `SendStream::\1(&mut self.0 .0`
+//@ resub `tokio::io::AsyncWrite::(poll_\w+)\(\s*Pin::new\(([^()]*)\)` => `SendStream::\1(\2`
 //@ ensures
 //@ | r == shutdown_outcome(old(self).0.0.0.0.id, old(self).0.0.0.0.ops@.len()),
 //@ | final(self).0.0.0.0.id == old(self).0.0.0.0.id, final(self).0.0.0.0.ops@ == old(self).0.0.0.0.ops@.push(Op::Shutdown),
+//@ end
+}
+
+// ---- read side: the sans-IO AsyncRead adapter ------------------------------------------------------
+// ASSUMED stand-ins: tokio's ReadBuf over the caller's slice (only its capacity and filled length are
+// modelled; that `filled()` aliases the caller's slice is tokio's), quinn::RecvStream::poll_read
+// answering by an unknown outcome and filling an unknown number of bytes <= capacity on Ok.
+struct ReadBuf<'a> { cap: Ghost<nat>, filled_len: usize, buf: &'a mut [u8] }
+impl<'a> ReadBuf<'a> {
+    #[verifier::external_body]
+    fn new(buf: &'a mut [u8]) -> (r: ReadBuf<'a>)
+        ensures r.cap@ == old(buf)@.len(), r.filled_len == 0,
+    { unimplemented!() }
+    #[verifier::external_body]
+    fn filled(&self) -> (r: &[u8]) ensures r@.len() == self.filled_len { unimplemented!() }
+}
+struct QuinnRecvStream { id: u64, reads: Ghost<nat> }
+uninterp spec fn read_outcome(id: u64, at: nat, cap: nat) -> Poll<Result<(), IoError>>;
+uninterp spec fn read_filled(id: u64, at: nat, cap: nat) -> usize;
+impl QuinnRecvStream {
+    #[verifier::external_body]
+    fn poll_read<'a>(&mut self, cx: &mut Context, buf: &mut ReadBuf<'a>) -> (r: Poll<Result<(), IoError>>)
+        ensures r == read_outcome(old(self).id, old(self).reads@, old(buf).cap@),
+            final(self).id == old(self).id, final(self).reads@ == old(self).reads@ + 1,
+            final(buf).cap == old(buf).cap,
+            r matches Poll::Ready(Ok(_)) ==> final(buf).filled_len == read_filled(old(self).id, old(self).reads@, old(buf).cap@),
+    { unimplemented!() }
+}
+struct QuicRecvStream(QuinnRecvStream);
+
+impl QuicRecvStream {
+// the count handed to the sans-IO readers is exactly the number of bytes quinn filled in, an error is
+// passed on as it is, Pending stays Pending; quinn is polled exactly once
+//@ extract wtransport/src/driver/streams/mod.rs >> impl wtransport_proto::bytes::AsyncRead for QuicRecvStream >> fn poll_read
+//@ subst `mut self: Pin<&mut Self>` => `&mut self`
+//@ subst `Context<'_>` => `Context`
+//@ subst `Poll<std::io::Result<usize>>` => `Poll<Result<usize, IoError>>`
+//@ resub `tokio::io::AsyncRead::(poll_\w+)\(\s*Pin::new\(([^()]*)\)` => `QuinnRecvStream::\1(\2`
+//@ ensures
+//@ | final(self).0.id == old(self).0.id, final(self).0.reads@ == old(self).0.reads@ + 1,
+//@ | read_outcome(old(self).0.id, old(self).0.reads@, old(buf)@.len() as nat) is Pending ==> r is Pending,
+//@ | read_outcome(old(self).0.id, old(self).0.reads@, old(buf)@.len() as nat) matches Poll::Ready(Err(e)) ==> r == Poll::Ready(Err::<usize, IoError>(e)),
+//@ | read_outcome(old(self).0.id, old(self).0.reads@, old(buf)@.len() as nat) matches Poll::Ready(Ok(_)) ==> r == Poll::Ready(Ok::<usize, IoError>(read_filled(old(self).0.id, old(self).0.reads@, old(buf)@.len() as nat))),
 //@ end
 }
 
